@@ -71,7 +71,8 @@ def analyse(rec: dict) -> dict:
             "paths_incl_subquery_end": s_paths(sh.get_column_lineage(False, False)),
             "paths_excl_subquery_cols": s_paths(sh.get_column_lineage(True, True)),
         }
-        out["expr"] = "show_all (%s) [%s]" % (g_provider(bool(provider), cols), "; ".join(g_holder(h) for h in holders))
+        out["holders_gal"] = "[%s]" % "; ".join(g_holder(h) for h in holders)
+        out["expr"] = "show_all (%s) %s" % (g_provider(bool(provider), cols), out["holders_gal"])
         # export: the model is given the very sub-graphs the implementation exports, in its iteration order
         tg, cg = sh.table_lineage_graph, sh.column_lineage_graph
         out["cy_impl"] = {
